@@ -193,6 +193,12 @@ def _nan_grouped_op(group_idx, array, func, fillna, *args, **kwargs):
     if fillna in (np.inf, -np.inf):
         allnangroups = result == fillna
         if allnangroups.any():
+            # an infinity is data: a group whose true extreme equals the substitute
+            # (e.g. all members are -inf for nanmax) has valid members and is kept
+            nvalid = nanlen(
+                group_idx, array, axis=kwargs.get("axis", -1), size=kwargs.get("size", None), fill_value=0
+            )
+            allnangroups &= nvalid == 0
             result[allnangroups] = kwargs["fill_value"]
     return result
 
